@@ -44,8 +44,9 @@ type Contracts struct {
 	Ralph    map[string]json.RawMessage `json:"ralph"`
 	Solidity struct {
 		Quorum struct {
-			Param string `json:"param"`
-			Expr  RNode  `json:"expr"`
+			Param    string  `json:"param"`
+			Expr     RNode   `json:"expr"`
+			Requires []RNode `json:"requires"`
 		} `json:"quorum"`
 		ParseVM         map[string][]SolStep `json:"parseVM"`
 		HashDouble      bool                 `json:"hash_is_double_keccak_of_rest_after_signatures"`
@@ -751,6 +752,31 @@ func EvalInt(e RNode, vars map[string]*big.Int) (*big.Int, error) {
 		return nil, errors.New("extractor mismatch: expression is not an integer")
 	}
 	return n, nil
+}
+
+// SolQuorum evaluates Messages.sol quorum(n): its require statements first (a failing one reverts: *Abort), then the
+// returned expression.
+func (c *Contracts) SolQuorum(n int) (*big.Int, error) {
+	vars := map[string]*big.Int{c.Solidity.Quorum.Param: big.NewInt(int64(n))}
+	for _, r := range c.Solidity.Quorum.Requires {
+		in := &Interp{Fields: map[string]RVal{}, File: &RFile{}}
+		env := map[string]RVal{}
+		for k, v := range vars {
+			env[k] = v
+		}
+		v, err := in.eval(r, env)
+		if err != nil {
+			return nil, err
+		}
+		ok, isBool := v.(bool)
+		if !isBool {
+			return nil, errors.New("extractor mismatch: require condition is not a boolean")
+		}
+		if !ok {
+			return nil, &Abort{Msg: "require failed in quorum()"}
+		}
+	}
+	return EvalInt(c.Solidity.Quorum.Expr, vars)
 }
 
 func U(n uint64) *big.Int { return new(big.Int).SetUint64(n) }
